@@ -84,7 +84,7 @@ def indent(s, n=1):
 def build(kind, c, form, is_stmt, construct, exit_name, in_def, cb_exit=""):
     """Return (steps, expects_error_in_step0). Observations are tagged lists: [tag, mutation_failed, container]."""
     mbody = f"    {form}\n" if is_stmt else f"    return {form}\n"
-    pre = f"x = {c}\ny = x\nh = [x]\ndef m():\n{mbody}" + DEEP
+    pre = f"x = {c}\ny = x\nh = [x]\ns = struct(f = x)\ndd = {{\"k\": x}}\nt = (x,)\ndef gy():\n    return x\ndef m():\n{mbody}" + DEEP
     cb = "def cb(i):\n    emit(['in', fails(m), x])\n" + cb_exit + "    return 0\n"
     if construct in FOR_CONSTRUCTS:
         e1, e2 = STMT_EXITS[exit_name]
@@ -171,6 +171,16 @@ def run(tier):
             raise vlib.Machinery(f"mutator discovery found only {len(v)} mutators for {k}")
     specs, meta = [], []
     q = tier == "quick"
+    if not q:
+        # thorough: the same mutators reaching the iterated container through other access paths (struct field, dict value,
+        # tuple element, function result) instead of the alias variable
+        for kind in muts:
+            extra = []
+            for form, is_stmt, after_enc in muts[kind]:
+                if form.startswith("y.") and not is_stmt:
+                    for path in ("s.f.", 'dd["k"].', "t[0].", "gy()."):
+                        extra.append((path + form[2:], is_stmt, after_enc))
+            muts[kind] = muts[kind] + extra
     for kind, c in CONTAINERS.items():
         for form, is_stmt, after_enc in muts[kind]:
             for in_def in (True, False):
